@@ -55,7 +55,7 @@ theorem C15_install_obligation (s s' : PSys) (i t idx sterm : Nat)
       · rw [← hp.1]; exact hg.2.1
       · rw [← hp.2.1]; exact hg.2.2.2.1
       · simp [upd]
-      · simp only [upd, if_true]; rw [hg.2.2.2.2, hp.2.1]
+      · simp only [upd, if_true]; rw [hg.2.2.2.2.1, hp.2.1]
       · simp only [upd, if_true]; exact hp.2.1
       · simp [upd]
     · cases h
